@@ -13,3 +13,30 @@ func init() {
 		return out.Bytes(), nil, err
 	}
 }
+
+func intv(c Case, k string) int { return integer(c, k, 0) }
+
+func init() {
+	ops["topranking"] = func(c Case) ([]byte, map[string]interface{}, error) {
+		var out bytes.Buffer
+		ign := []string{}
+		if l, ok := c["ignore"].([]interface{}); ok {
+			for _, x := range l {
+				ign = append(ign, x.(string))
+			}
+		}
+		qt, tt := str(c, "qtype"), str(c, "ttype")
+		if qt == "" {
+			qt = "fasta"
+		}
+		if tt == "" {
+			tt = "fasta"
+		}
+		err := updown.TopRanking(bytes.NewReader(b64(c, "query")), bytes.NewReader(b64(c, "target")), bytes.NewReader(b64(c, "ref")), &out,
+			boolean(c, "table"), qt, tt, ign,
+			intv(c, "sizetotal"), intv(c, "sizeup"), intv(c, "sizedown"), intv(c, "sizeside"), intv(c, "sizesame"),
+			intv(c, "distall"), intv(c, "distup"), intv(c, "distdown"), intv(c, "distside"),
+			float32(float(c, "threshpair", 0.1)), integer(c, "threshtarg", 10000), boolean(c, "nofill"), intv(c, "distpush"))
+		return out.Bytes(), nil, err
+	}
+}
